@@ -24,13 +24,17 @@ Definition flags_count (p : str) (c : trncase) : nat := length (filter (has_pref
 Definition P14 : str := [99;49;52;95]. Definition P15 : str := [99;49;53;95]. Definition P16 : str := [99;49;54;95].
 
 Definition c14_oracle := flags_ok P14. Definition c15_oracle := flags_ok P15. Definition c16_oracle := flags_ok P16.
-Definition c14_report := report (fun _ => true) c14_oracle (fun _ => false) (fun c => Nat.leb 5 (flags_count P14 c)).
-Definition c15_report := report (fun _ => true) c15_oracle (fun _ => false) (fun c => Nat.leb 4 (flags_count P15 c)).
+(** known finding K7: the trained model has no bigram weight row at all and the first generation
+    panics inside rucrf's RawModel::merge *)
+Definition K7FLAG : str := [107;55;95;110;111;95;98;105;103;114;97;109;95;119;101;105;103;104;116;115].
+Definition k7_class (c : trncase) : bool := existsb (fun f => str_eqb (fst f) K7FLAG && (snd f =? 1)) (tn_flags c).
+Definition c14_report := report (fun _ => true) c14_oracle (fun c => k7_class c && negb (c14_oracle c)) (fun c => Nat.leb 5 (flags_count P14 c)).
+Definition c15_report := report (fun _ => true) c15_oracle (fun c => k7_class c && negb (c15_oracle c)) (fun c => Nat.leb 4 (flags_count P15 c)).
 (** known finding K3 (shared with C07): a bigram template without literal text can expand to '*',
     the marker bigram.left/right use for "no feature" *)
 Definition K3FLAG : str := [107;51;95;98;97;114;101;95;116;101;109;112;108;97;116;101].
 Definition k3_class (c : trncase) : bool := existsb (fun f => str_eqb (fst f) K3FLAG && (snd f =? 1)) (tn_flags c).
-Definition c16_report := report (fun _ => true) c16_oracle (fun c => k3_class c && negb (c16_oracle c)) (fun c => Nat.leb 3 (flags_count P16 c)).
+Definition c16_report := report (fun _ => true) c16_oracle (fun c => (k3_class c || k7_class c) && negb (c16_oracle c)) (fun c => Nat.leb 3 (flags_count P16 c)).
 
 (** ** C18 *)
 Definition opt_str_eqb (a b : option str) : bool := option_eqb str_eqb a b.
